@@ -17,7 +17,7 @@ EXPLANATION = ('Funnel, census, comparison-shape and sibling-agreement rules ove
 	'HTLC fail-back) are produced only inside the loop over the events selected by has_reached_confirmation_threshold; the threshold is height + ANTI_REORG_DELAY - 1 and is reached iff '
 	'best height >= threshold, identically in the monitor and the claim handler; the three retraction entry points drop exactly the events above the new tip, the claim handler uses the '
 	'complementary boundary and receives the same height; re-delivered transactions are skipped by the already-seen tests and the best block only advances; manager side: channel_ready '
-	'needs confirmations >= minimum_depth with confirmations = height - conf_height + 1, a funding reorg below depth closes. Decides these shapes on all paths; equality of final states '
+	'needs confirmations >= minimum_depth with confirmations = height - conf_height + 1, a funding reorg below depth closes. Also: every open-coded comparison built from ANTI_REORG_DELAY (the restart-time replay) is equivalent to the confirmation threshold. Decides these shapes on all paths; equality of final states '
 	'across delivery styles (a relation between two runs) is not decided.')
 ASSUMPTIONS = ['callers honour the Listen / Confirm contracts (documented call order)']
 
